@@ -104,18 +104,22 @@ def constants_of(scn):
             if n != 0 or not ps:
                 return None
             sends.append("<<%s>>" % ", ".join(ps))
-            ops.append('[op |-> "send", n |-> 0]')
+            ops.append('[op |-> "send", n |-> 0, after |-> 0]')
         elif act[0] == "read":
-            ops.append('[op |-> "read", n |-> %d]' % act[1])
+            return None      # byte-granular partial sends: the model counts whole write_soon units
         elif act[0] == "readall":
-            ops.append('[op |-> "read", n |-> -1]')
+            ops.append('[op |-> "read", n |-> -1, after |-> 0]')
         elif act[0] == "readall_after_block":
-            ops.append('[op |-> "read", n |-> -2]')
+            ops.append('[op |-> "read", n |-> -1, after |-> %d]' % act[1])
+        elif act[0] == "read_after_block":
+            return None
         elif act[0] == "await100":
-            ops.append('[op |-> "await100", n |-> %d]' % act[1])
+            ops.append('[op |-> "await100", n |-> %d, after |-> 0]' % act[1])
         elif act[0] != "connect":
             return None
     room = c[0].get("room")
+    if room not in (None, 0):
+        return None
     return {"MSends": "<<%s>>" % ", ".join(sends), "MOps": "<<%s>>" % ", ".join(ops), "MRoom": "-1" if room is None else str(room),
             "MWorkers": "{%s}" % ", ".join('"w%d"' % i for i in range(scn.get("workers", 1))), "Lookahead": a.get("channel_request_lookahead", 0)}
 
@@ -185,8 +189,8 @@ CFG = ("CONSTANTS Sends <- MSends\nWorkers <- MWorkers\nRoomInit <- MRoom\nClien
 
 def mc_scenarios(thorough):
     R = lambda r, c="FALSE", w="full": '[rid |-> %d, close |-> %s, what |-> "%s"]' % (r, c, w)
-    SEND, ALL, AW = '[op |-> "send", n |-> 0]', '[op |-> "read", n |-> -1]', lambda n: '[op |-> "await100", n |-> %d]' % n
-    RD = lambda n: '[op |-> "read", n |-> %d]' % n
+    SEND, ALL, AW = '[op |-> "send", n |-> 0, after |-> 0]', '[op |-> "read", n |-> -1, after |-> 1]', lambda n: '[op |-> "await100", n |-> %d, after |-> 0]' % n
+    RD = lambda n, after=0: '[op |-> "read", n |-> %d, after |-> %d]' % (n, after)
     O = lambda *xs: "<<%s>>" % ", ".join(xs)
     S = [({"MSends": "<< <<%s, %s>> >>" % (R(1), R(2)), "MWorkers": '{"w0"}', "MRoom": "-1", "MOps": O(SEND), "Lookahead": 0}, "2 pipelined, same read, la=0", "C04 C05 C11"),
          ({"MSends": "<< <<%s>>, <<%s>> >>" % (R(1), R(2)), "MWorkers": '{"w0"}', "MRoom": "0", "MOps": O(SEND, SEND, ALL), "Lookahead": 1}, "2 requests, later read, slow client, la=1", "C04 C05"),
